@@ -434,8 +434,21 @@ func (x *Explorer) resolveOld(st *State, o *Obj, t *Table, kind string, row map[
 						}
 					}
 				}
-				if ev.OpKind == "list" {
-					continue
+				if ev.OpKind == "itervalue" {
+					if fo := st.mem[ev.RowObj]; fo != nil {
+						var ks []string
+						for _, k := range t.PK {
+							f := snakeToCamel(k)
+							if v, ok := fo.Preset[f]; ok {
+								ks = append(ks, st.canon(v))
+							} else {
+								ks = append(ks, st.find(fo.Name+"."+f))
+							}
+						}
+						if strings.Join(ks, "|") == key {
+							return x.oldFromRead(st, ev, t)
+						}
+					}
 				}
 				continue
 			}
